@@ -23,7 +23,8 @@ class Target:
     def __init__(self, name, fqn=None, mod=None, qual=None, kind="function", self_cls=None, params=None,
                  requires=(), ensures=(), raises=None, raises_default=None, no_raise=None, loops=None,
                  local_types=None, setup=None, allow_exc=None, assert_mode=None, modifies=None, node=None,
-                 unchecked_exc=(), reveal=(), ghost=(), ghost_init=None, dead=()):
+                 unchecked_exc=(), reveal=(), ghost=(), ghost_init=None, dead=(), yield_spec=None):
+        self.yield_spec = yield_spec          # iterator contract for generator functions
         self.name, self.mod, self.qual, self.kind, self.self_cls = name, mod, qual, kind, self_cls
         self.params = dict(params or {})      # name -> Ty (parameters not listed take their default value)
         self.requires, self.ensures = list(requires), list(ensures)
@@ -340,6 +341,7 @@ class Engine(ExprMixin, StmtMixin, CallMixin, BuiltinMixin, EngineBase):
                     loops=t.loops, local_types=t.local_types)
         fn.ghost = t.ghost
         fn.ghost_init = t.ghost_init
+        fn.yield_spec = t.yield_spec
         fn._ghost_hits = set()
         if t.node is not None:
             fn.node = t.node
